@@ -43,7 +43,9 @@ def model(op, a, b):
         return ("fail", f.reason)
 
 
-HOLDERS = "".join("class H%s {\n\tv: %s\n\tconstructor(self, v: %s) {\n\t\tself.v = v\n\t}\n}\n" % (k, k, k) for k in ("int", "bigint", "float", "byte"))
+HOLDERS = "".join("class H%s {\n\tv: %s\n\tconstructor(self, v: %s) {\n\t\tself.v = v\n\t}\n}\n" % (k, k, k) for k in ("int", "bigint", "float", "byte")) + \
+    "".join("class HO%s {\n\tv: %s?\n\tconstructor(self, v: %s?) {\n\t\tself.v = v\n\t}\n}\n" % (k, k, k) for k in ("int", "bigint", "float", "byte"))
+WRAPPED = ("wrapped-elem", "wrapped-field", "wrapped-entry", "wrapped-var")
 FORMS = ("expr", "var", "elem", "field")
 
 
@@ -51,6 +53,22 @@ def pair_src(i, op, a, b, form="expr"):
     """Source lines and expected operand lines for one evaluation. form: the operator as an expression `a op b`, or as the
     op-assignment `t op= b` on a variable / a list element / an object field holding a"""
     an, bn = "a%d" % i, "b%d" % i
+    if form.startswith("wrapped-"):
+        # the RIGHT operand is a present optional produced by a built-in (parse_*), read straight from a list element / an
+        # object field / a map entry / a variable: the operator sees a reference to a cell that holds a wrapped value
+        text = num.fmt(b) if b.k != "byte" else "0b" + bin(b.v)[2:]
+        parse = {"int": "parse_int", "bigint": "parse_bigint", "float": "parse_float", "byte": "parse_byte"}[b.k]
+        lines = ['print "@%d"' % i] + num.init_stmts(an, a) + ["print " + an, "ws%d = \"%s\"" % (i, text)]
+        exp = ["str:@%d" % i, "%s:%s" % (a.k, num.fmt(a))]
+        if form == "wrapped-elem":
+            lines += ["wl%d: [%s?...] = [ws%d.%s()]" % (i, b.k, i, parse), "print %s %s wl%d[0]" % (an, op, i)]
+        elif form == "wrapped-field":
+            lines += ["wh%d = HO%s(ws%d.%s())" % (i, b.k, i, parse), "print %s %s wh%d.v" % (an, op, i)]
+        elif form == "wrapped-entry":
+            lines += ["wm%d = map[str, %s?] {\"k\": ws%d.%s()}" % (i, b.k, i, parse), "print %s %s wm%d[\"k\"]" % (an, op, i)]
+        else:
+            lines += ["wv%d = ws%d.%s()" % (i, i, parse), "print %s %s wv%d" % (an, op, i)]
+        return lines, exp
     if form != "expr":
         lines = ['print "@%d"' % i] + num.init_stmts(an, a) + ["print " + an] + num.init_stmts(bn, b) + ["print " + bn]
         exp = ["str:@%d" % i, "%s:%s" % (a.k, num.fmt(a)), "%s:%s" % (b.k, num.fmt(b))]
@@ -78,7 +96,7 @@ def pair_src(i, op, a, b, form="expr"):
 def single_scenario(op, a, b, form="expr"):
     lines, exp = pair_src(0, op, a, b, form)
     kind, val = model(op, a, b)
-    src = (HOLDERS if form == "field" else "") + "\n".join(lines) + "\nprint \"@end\"\n"
+    src = (HOLDERS if form in ("field", "wrapped-field") else "") + "\n".join(lines) + "\nprint \"@end\"\n"
     steps = [{"id": "run", "argv": ["mscript", "run", "main.ms", "-q"], "env": ENV}]
     ok_asserts = [{"kind": "stdout_eq", "step": "run", "float_by_value": True, "value": "\n".join(exp + [val, "str:@end"]) + "\n"},
                   {"kind": "exit", "step": "run", "in": ["ok"]}]
@@ -116,9 +134,9 @@ def judge_single(op, a, b, form="expr"):
     else:
         got = "failed(%s)" % r.klass if r.klass in ("error", "panic") else "crashed(%s)" % r.klass
     kinds = a.k + ("," + b.k if b is not None else "")
-    opname = op if form == "expr" else "%s=@%s" % (op, form)
+    opname = op if form == "expr" or form.startswith("wrapped-") else "%s=@%s" % (op, form)
     sig = "C05:%s:%s:%s:%s" % (opname, kinds, expect, got)
-    msg = "%s %s %s: model says %s %s; %s" % (a, opname, b, kind, val, "; ".join(fails))
+    msg = "%s %s %s%s: model says %s %s; %s" % (a, opname, b, (" [right operand %s]" % form) if form.startswith("wrapped-") else "", kind, val, "; ".join(fails))
     return ("fail", fail(msg, sig, sc, case={"op": op, "a": repr(a), "b": repr(b), "form": form}))
 
 
@@ -161,7 +179,7 @@ def check(case):
             l, e = pair_src(i, op, a, b, form)
             lines += l
             exp += e + [model(op, a, b)[1]]
-        sc = scenario.simple((HOLDERS if form == "field" else "") + "\n".join(lines) + "\n", [{"id": "run", "argv": ["mscript", "run", "main.ms", "-q"], "env": ENV}],
+        sc = scenario.simple((HOLDERS if form in ("field", "wrapped-field") else "") + "\n".join(lines) + "\n", [{"id": "run", "argv": ["mscript", "run", "main.ms", "-q"], "env": ENV}],
                              [{"kind": "stdout_eq", "step": "run", "float_by_value": True, "value": "\n".join(exp) + "\n"},
                               {"kind": "exit", "step": "run", "in": ["ok"]}])
         res, fails, _ = scenario.execute(sc)
@@ -212,11 +230,20 @@ def enumerated(tier, seed):
                 for form in FORMS[1:]:
                     for op in ARITH:
                         cases += [{"op": op, "pairs": c, "form": form} for c in chunks(pairs, 100)]
+    # every operator with a right operand that is a present optional produced by a built-in and read from a cell
+    import random as _random
+    rnd = _random.Random(12345)
+    for k1 in num.KINDS:
+        for k2 in num.KINDS:
+            pairs = [(a, b) for a in B(k1) for b in B(k2) if not (b.k == "float" and (b.v != b.v or abs(b.v) == math.inf or (b.v == 0 and math.copysign(1, b.v) < 0)))]
+            pairs = rnd.sample(pairs, min(len(pairs), 24 if tier == "quick" else 200))
+            for form in WRAPPED:
+                for op in ARITH + CMP + (BIT if "float" not in (k1, k2) else []):
+                    cases.append({"op": op, "pairs": pairs[:12] if form != "wrapped-elem" and tier == "quick" else pairs, "form": form})
     for k in ("int", "bigint", "float"):
         cases.append({"op": "neg", "pairs": [(a, None) for a in B(k)]})
     # comparisons at their own boundary: an integer against the doubles on either side of it (1 and 2 ulps away) and against
     # the double that equals it, in both operand orders
-    import math
     for k in ("int", "bigint", "byte"):
         pairs = []
         for a in B(k) + [Num(k, v) for v in (3, 100, 255) if num.in_range(k, v)] + ([Num(k, v) for v in (435, -1000000, 12345678)] if k != "byte" else []):
